@@ -12,7 +12,8 @@ EXPLANATION = (
     "anchors; (3) the frame id counter is advanced with wrapping arithmetic; (4) expiry is wired: Fragments::timer is called from the "
     "task that calls reassemble, and removes from the queue every id it pops from the timer list. The permutation/duplication law of the "
     "bitmap algebra is NOT decided by this family."
-    ' timer() examines the expiry list on every call (no early return before it).')
+    ' timer() examines the expiry list on every call (no early return before it).'
+    ' Rule P also covers the Fragmentable implementations and what they call: a completed (possibly inconsistent) buffer must yield a frame or nothing, never a panic.')
 RULE_TEXT = "instances = header fields, panic edges in fragment.rs, counter update, timer wiring"
 TRUSTED = ["bytes::Buf get/put semantics"]
 NOT_DECIDED = ["that any permutation/duplication of the fragment multiset reassembles to exactly the original once (a property of histories; "
@@ -66,6 +67,17 @@ def run(chk, prog):
 
     # (2) rule P over fragment.rs
     scope = [k for k, f in prog.fns.items() if f.crate == "redproxy_rs" and f.file.endswith("common/fragment.rs")]
+    # ... and over what reassembly hands a completed (possibly inconsistent, peer-made) buffer to: the Fragmentable implementations and
+    # everything they call.  A panic there is not "no frame": with panic=abort it takes every other and later frame with it.
+    fimpls = [i for i in prog.items["redproxy_rs"]["impls"] if i.get("trait") == "common::fragment::Fragmentable"]
+    chk.floor("P-impl", len(fimpls), 1, "Fragmentable implementations")
+    roots = []
+    for im in fimpls:
+        for it in im["items"]:
+            f = prog.by_crate["redproxy_rs"].get(it["path"])
+            if f is not None:
+                roots.append(f.key)
+    scope = sorted(set(scope) | set(k for k in prog.reachable_fns(roots) if prog.fns[k].crate == "redproxy_rs"))
     n = panics.evaluate_scope(chk, prog, scope, rule="P")
     chk.floor("P", n, 20, "panic edges in common/fragment.rs")
     for a in ("fragment_header_guard", "mtu_guard", "fragment_count_ceil", "make_fragments_next_shape", "fragment_bitmap_guard"):
